@@ -53,6 +53,10 @@ CLAIMS = {
  'C16': ("Contract proof of end-to-end call correlation: Conn.call registers a fresh ack channel keyed by its call id before the call can be sent and returns only an ack bearing that id; subscribeReply/receiveReplyCall/SendCallAndWaitReplayCall return only a reply whose RequestCallID is the id of the call they sent (ghost variable bound to the id drawn from randomString); "
          "SendCall/SendReplyCall send exactly the caller's fields under the fresh id and report that id; the two dispatch loops deliver only to the channel registered under the message's id (table monitor invariants + channel invariants), delete exactly that entry, never send under the lock, look every reply up before taking the next message, and the wire dispatcher never drops an ack/call because a consumer is behind (no default arm).",
          "NOT decided: once-each / arrival order of the inbox channels, behaviour across a reconnect between call and ack, freshness of call ids (randomString is an assumed-pure package variable; uuid randomness).", "6/C16"),
+ 'C12': ("Contract proof of the three decidable lemmas behind 'decoders never crash and accept only self-consistent messages': (1) recover guard - each of the four EncodeTo/DecodeFrom entry points installs, before any call, a deferred closure which (verified with recover() returning an arbitrary non-nil value) is itself panic-free and always leaves a non-nil error; "
+         "(2) size gate - validateMessageSize rejects exactly target > max (max != 0) and encoding.Transport.Read hands a frame to the decoder only if it passed the gate (ghost variable bound to the frame length); "
+         "(3) decoder output invariant - for every wire input toDataIDOrAlias/toUpstreamOrAlias/toDataPointGroup(s)/toStreamChunk return either an error or values whose id-or-alias positions hold one of the two known dynamic types, no nil group, no nil chunk (the precondition of C03's resolver), and the enum decoders accept exactly the declared constants (so a negative enum number cannot decode to a value that no longer encodes).",
+         "NOT decided (and natively a fuzzing property): arbitrary bytes through the generated protobuf unmarshaller and jsonpb (third-party; only known to sit under the recover guard), absence of hangs, the re-encode round trip of whole messages, the goroutine-level recover of the datagram readers.", "6/C12"),
 }
 NA_REASON_DEFAULT = "check not built yet (framework under construction; see DESIGN.md section 8)"
 NA = {}
